@@ -310,3 +310,67 @@ func TestVerifC01Shared(t *testing.T) {
 	}
 	rec.Exhaustive = true
 }
+
+type gapsCase struct {
+	NKeys    int `json:"nkeys"`
+	NShard   int `json:"nshard"`
+	Pattern  int `json:"pattern"`
+	Consumer int `json:"consumer"`
+}
+
+const tGaps = "TestVerifC01CogroupGaps"
+
+// TestVerifC01CogroupGaps enumerates cogroups of many distinct keys in which one input lacks groups.
+func TestVerifC01CogroupGaps(t *testing.T) {
+	rec := vt.New("C01", "cogroup-gaps",
+		"complete enumeration of Cogroup(A, B) with A holding {1, 127, 128, 129, 257, 400} distinct keys and B lacking some of them (every third key / the lower half / the upper half / all but the last) x shard counts {1,2,3} x consumer {none, Map, Filter pipelined with the Cogroup}; same oracle as random-programs; non-trivial = more than 128 keys in a shard (a second output batch); distinct by case")
+	h := &harness{}
+	defer func() {
+		if h.sess != nil {
+			h.sess.Close()
+		}
+	}()
+	docs, only := vt.Replays(tGaps)
+	for _, d := range docs {
+		var c gapsCase
+		if err := json.Unmarshal(d.Case, &c); err != nil {
+			t.Fatal(err)
+		}
+		rec.Case(true, vt.Hash(string(d.Case)), "replay")
+		if err, sig := h.runProgram(progen.EnumCogroupGaps(c.NKeys, c.NShard, c.Pattern, c.Consumer)); err != nil {
+			rec.Violation(tGaps, sig, err.Error(), c)
+			t.Errorf("replay: %v", err)
+		}
+	}
+	if only || t.Failed() {
+		return
+	}
+	idx := 0
+	failed := map[string]bool{}
+	for _, nkeys := range []int{1, 127, 128, 129, 257, 400} {
+		for _, nshard := range []int{1, 2, 3} {
+			for pattern := 0; pattern < 4; pattern++ {
+				for consumer := 0; consumer < 3; consumer++ {
+					idx++
+					if !vt.Mine(idx) {
+						continue
+					}
+					c := gapsCase{nkeys, nshard, pattern, consumer}
+					nt := nkeys/nshard > 128
+					rec.Case(nt, vt.Hash("gaps", nkeys, nshard, pattern, consumer), fmt.Sprintf("keys:%d", nkeys))
+					if nt && rec.WantSample("gaps") {
+						rec.Sample("gaps", c)
+					}
+					if err, sig := h.runProgram(progen.EnumCogroupGaps(nkeys, nshard, pattern, consumer)); err != nil {
+						if !failed[sig] {
+							failed[sig] = true
+							rec.Violation(tGaps, sig, err.Error(), c)
+							t.Errorf("%+v: %v", c, err)
+						}
+					}
+				}
+			}
+		}
+	}
+	rec.Exhaustive = true
+}
